@@ -319,3 +319,341 @@ package packets
 //@ modifies heap, ghost(w.$in)
 //@ ensures [C06] fh.RemainLength > 268435455 ==> result != nil && called(Writer.Write#1) == 0
 //@ call Writer.Write#1 assert [C06] len(p) == 1 + len(length) && p[0] == (fh.PacketType << 4 | fh.Flags) && (forall k int :: 0 <= k && k < len(length) ==> p[1 + k] == length[k]) && 0 <= fh.RemainLength && fh.RemainLength <= 268435455
+
+// ---------------------------------------------------------------------------
+// C06 — PUBLISH. The flag nibble carries DUP (bit 3), QoS (bits 2-1) and RETAIN (bit 0); the variable header is the
+// topic name (length-prefixed), the packet identifier only for QoS 1 and 2, the property block only for v5; the
+// payload is everything that is left of the remaining length.
+//@ spec func pubFlags(dup bool, q byte, retain bool) byte = (q << 1) | (dup ? 8 : 0) | (retain ? 1 : 0)
+//@ lemma pubFlagsRoundTrip mode bv : [C06] forall d bool, q byte, r bool :: q <= 3 ==> ((1 & (pubFlags(d, q, r) >> 3)) > 0) == d && ((pubFlags(d, q, r) >> 1) & 3) == q && ((pubFlags(d, q, r) & 1) == 1) == r && (pubFlags(d, q, r) >> 4) == 0
+
+//@ func writeBinary mode bv
+//@ props C06
+//@ requires [C06] bufOK(w)
+//@ modifies ghost(w.$data), ghost(w.$w)
+//@ ensures [C06] bufOK(w) && w.$w == old(w.$w) + 2 + len(b) && w.$data[old(w.$w)] == byte(uint16(len(b)) >> 8) && w.$data[old(w.$w) + 1] == byte(uint16(len(b)))
+//@ ensures [C06] forall k int :: 0 <= k && k < len(b) ==> w.$data[old(w.$w) + 2 + k] == b[k]
+//@ ensures [C06] forall k int :: k < old(w.$w) ==> w.$data[k] == old(w.$data[k])
+
+// NewPublishPacket: the decoded flags are the bits of the fixed header; QoS 3 and DUP with QoS 0 are refused.
+//@ func NewPublishPacket mode bv
+//@ props C06
+//@ requires [C06] fh != nil && fh.RemainLength >= 0
+//@ modifies heap
+//@ preserves all(FixHeader.*)
+//@ ensures [C06] result1 == nil ==> result0 != nil && result0.FixHeader == fh && result0.Version == version && result0.Qos <= 2 && !(result0.Qos == 0 && result0.Dup)
+//@ ensures [C06] result1 == nil ==> result0.Dup == ((1 & (fh.Flags >> 3)) > 0) && result0.Qos == ((fh.Flags >> 1) & 3) && result0.Retain == ((fh.Flags & 1) == 1)
+//@ ensures [C06] ((fh.Flags >> 1) & 3) == 3 || (((fh.Flags >> 1) & 3) == 0 && (1 & (fh.Flags >> 3)) > 0) ==> result1 != nil
+//@ ensures [C06] (result0 == nil) == (result1 != nil)
+
+// Publish.Unpack: reads exactly the remaining length; the topic name is the length-prefixed string at the start and
+// is a valid topic name; the identifier follows only for QoS > 0; for v3 the payload is all the rest.
+//@ func (*Publish).Unpack mode bv
+//@ props C06
+//@ requires [C06] p != nil && p.FixHeader != nil && p.FixHeader.RemainLength >= 0
+//@ modifies heap
+//@ preserves all(FixHeader.*), all(Publish.Version), all(Publish.Qos), all(Publish.Dup), all(Publish.Retain), all(Publish.FixHeader)
+//@ ensures [C06] result == nil ==> bufr.$w == p.FixHeader.RemainLength && bufr.$r == bufr.$w && len(p.TopicName) == int(uint16(bufr.$data[0]) << 8 | uint16(bufr.$data[1])) && 2 + len(p.TopicName) <= p.FixHeader.RemainLength
+//@ ensures [C06] result == nil ==> (forall k int :: 0 <= k && k < len(p.TopicName) ==> p.TopicName[k] == bufr.$data[2 + k])
+//@ ensures [C06] result == nil && p.Qos > 0 ==> 4 + len(p.TopicName) <= p.FixHeader.RemainLength && p.PacketID == (uint16(bufr.$data[2 + len(p.TopicName)]) << 8 | uint16(bufr.$data[3 + len(p.TopicName)]))
+//@ ensures [C06] result == nil && p.Version != 5 ==> len(p.Payload) == p.FixHeader.RemainLength - 2 - len(p.TopicName) - (p.Qos > 0 ? 2 : 0)
+//@ ensures [C06] result == nil ==> (forall k int :: 0 <= k && k < len(p.Payload) ==> p.Payload[k] == bufr.$data[p.FixHeader.RemainLength - len(p.Payload) + k])
+//@ ensures [C06] result == nil && p.Version == 5 ==> p.Properties != nil
+//@ call ValidTopicName#1 assert [C06] $arg0 && $arg1 == p.TopicName
+//@ ensures [C06] result == nil ==> (forall i int :: 0 <= i && i < len(p.TopicName) ==> p.TopicName[i] != 43 && p.TopicName[i] != 35)
+
+// Publish.Pack: the fixed header carries pubFlags and announces exactly the bytes written; topic name, identifier
+// (QoS 1 and 2 only), property block (v5 only) and payload follow in this order, the payload last.
+//@ func (*Publish).Pack mode bv
+//@ props C06
+//@ requires [C06] p != nil && w != nil
+//@ modifies p.FixHeader, heap, ghost(w.$in)
+//@ abstract call Buffer).WriteTo pure
+//@ call writeBinary#1 assert [C06] b == p.TopicName && $arg0.$w == 0 && $arg0.$r == 0
+//@ call writeUint16#1 assert [C06] (p.Qos == 1 || p.Qos == 2) && i == p.PacketID && bufw.$w == 2 + len(p.TopicName)
+//@ call Properties.Pack#1 assert [C06] p.Version == 5 && $arg0 == p.Properties && bufw.$w == 2 + len(p.TopicName) + ((p.Qos == 1 || p.Qos == 2) ? 2 : 0)
+//@ call Buffer.Write#1 assert [C06] $arg1 == p.Payload && (p.Version != 5 ==> bufw.$w == 2 + len(p.TopicName) + ((p.Qos == 1 || p.Qos == 2) ? 2 : 0))
+//@ call FixHeader.Pack#1 assert [C06] p.FixHeader.PacketType == 3 && p.FixHeader.Flags == pubFlags(p.Dup, p.Qos, p.Retain) && p.FixHeader.RemainLength == bufw.$w - bufw.$r && bufw.$r == 0
+//@ call FixHeader.Pack#1 assert [C06] bufw.$data[0] == byte(uint16(len(p.TopicName)) >> 8) && bufw.$data[1] == byte(uint16(len(p.TopicName))) && (forall k int :: 0 <= k && k < len(p.TopicName) ==> bufw.$data[2 + k] == p.TopicName[k])
+//@ call FixHeader.Pack#1 assert [C06] (p.Qos == 1 || p.Qos == 2) ==> bufw.$data[2 + len(p.TopicName)] == byte(p.PacketID >> 8) && bufw.$data[3 + len(p.TopicName)] == byte(p.PacketID)
+//@ call FixHeader.Pack#1 assert [C06] bufw.$w >= len(p.Payload) && (forall k int :: 0 <= k && k < len(p.Payload) ==> bufw.$data[bufw.$w - len(p.Payload) + k] == p.Payload[k])
+//@ call FixHeader.Pack#1 assert [C06] p.Version != 5 ==> bufw.$w == 2 + len(p.TopicName) + ((p.Qos == 1 || p.Qos == 2) ? 2 : 0) + len(p.Payload)
+
+// ---------------------------------------------------------------------------
+// C06 — UNSUBSCRIBE: packet identifier, (v5) property block, then one or more length-prefixed topic filters.
+//@ func (*Unsubscribe).Pack mode bv
+//@ props C06
+//@ requires [C06] u != nil && w != nil
+//@ loop 1 invariant bufOK(bufw) && bufw.$r == 0 && bufw.$w >= 2
+//@ loop 1 invariant bufw.$data[0] == byte(u.PacketID >> 8)
+//@ loop 1 invariant bufw.$data[1] == byte(u.PacketID)
+//@ modifies u.FixHeader, heap, ghost(w.$in)
+//@ abstract call Buffer).WriteTo pure
+//@ call writeUint16#1 assert [C06] i == u.PacketID && $arg0.$w == 0 && $arg0.$r == 0
+//@ call writeUTF8String#1 assert [C06] string(s) == topic && len(s) >= 0 && len(s) == len(topic)
+//@ call FixHeader.Pack#1 assert [C06] u.FixHeader.PacketType == 10 && u.FixHeader.Flags == 2 && u.FixHeader.RemainLength == bufw.$w - bufw.$r && bufw.$r == 0 && bufw.$data[0] == byte(u.PacketID >> 8) && bufw.$data[1] == byte(u.PacketID)
+
+//@ func (*Unsubscribe).Unpack mode bv
+//@ props C06
+//@ requires [C06] u != nil && u.FixHeader != nil && u.FixHeader.RemainLength >= 0
+//@ modifies heap
+//@ preserves all(FixHeader.*), all(Unsubscribe.Version), all(Unsubscribe.FixHeader)
+//@ loop 1 invariant bufOK(bufr) && bufr.$w == u.FixHeader.RemainLength && u.FixHeader.RemainLength >= 2 && u.PacketID == (uint16(bufr.$data[0]) << 8 | uint16(bufr.$data[1]))
+//@ ensures [C06] result == nil ==> u.FixHeader.RemainLength >= 2 && u.PacketID == (uint16(bufr.$data[0]) << 8 | uint16(bufr.$data[1])) && bufr.$w == u.FixHeader.RemainLength && bufr.$r == bufr.$w
+//@ ensures [C06] result == nil ==> u.FixHeader.RemainLength >= 2 && len(u.Topics) >= 1
+//@ call Buffer.Len#1 assert [C06] len(u.Topics) >= 1 && u.Topics[len(u.Topics) - 1] == string(topicFilter)
+
+//@ func NewUnsubscribePacket mode bv
+//@ props C06
+//@ requires [C06] fh != nil && fh.RemainLength >= 0
+//@ modifies heap
+//@ preserves all(FixHeader.*)
+//@ ensures [C06] result1 == nil ==> result0 != nil && fh.Flags == 2 && result0.FixHeader == fh && result0.Version == version && len(result0.Topics) >= 1
+//@ ensures [C06] fh.Flags != 2 ==> result1 != nil
+
+// ---------------------------------------------------------------------------
+// C06 — SUBACK / UNSUBACK: packet identifier, (v5) property block, then the reason codes, one byte per topic filter.
+//@ func (*Suback).Pack mode bv
+//@ props C06
+//@ requires [C06] p != nil && w != nil
+//@ modifies p.FixHeader, heap, ghost(w.$in)
+//@ abstract call Buffer).WriteTo pure
+//@ call writeUint16#1 assert [C06] i == p.PacketID && $arg0.$w == 0 && $arg0.$r == 0
+//@ call Buffer.Write#1 assert [C06] $arg1 == p.Payload && (p.Version != 5 ==> bufw.$w == 2)
+//@ call FixHeader.Pack#1 assert [C06] p.FixHeader.PacketType == 9 && p.FixHeader.Flags == 0 && p.FixHeader.RemainLength == bufw.$w - bufw.$r && bufw.$r == 0 && bufw.$data[0] == byte(p.PacketID >> 8) && bufw.$data[1] == byte(p.PacketID)
+//@ call FixHeader.Pack#1 assert [C06] bufw.$w >= 2 + len(p.Payload) && (forall k int :: 0 <= k && k < len(p.Payload) ==> bufw.$data[bufw.$w - len(p.Payload) + k] == p.Payload[k])
+//@ call FixHeader.Pack#1 assert [C06] p.Version != 5 ==> p.FixHeader.RemainLength == 2 + len(p.Payload)
+
+//@ func (*Suback).Unpack mode bv
+//@ props C06
+//@ requires [C06] p != nil && p.FixHeader != nil && p.FixHeader.RemainLength >= 0
+//@ modifies heap
+//@ preserves all(FixHeader.*), all(Suback.Version), all(Suback.FixHeader)
+//@ loop 1 invariant bufOK(bufr) && bufr.$w == p.FixHeader.RemainLength && p.FixHeader.RemainLength >= 2 && bufr.$r >= 2 && p.PacketID == (uint16(bufr.$data[0]) << 8 | uint16(bufr.$data[1]))
+//@ ensures [C06] result == nil ==> p.PacketID == (uint16(bufr.$data[0]) << 8 | uint16(bufr.$data[1])) && bufr.$w == p.FixHeader.RemainLength && bufr.$r == bufr.$w
+//@ ensures [C06] result == nil ==> p.FixHeader.RemainLength >= 3 && len(p.Payload) >= 1
+//@ call Buffer.Len#1 assert [C06] len(p.Payload) >= 1 && p.Payload[len(p.Payload) - 1] == b && b == bufr.$data[bufr.$r - 1]
+
+//@ func NewSubackPacket mode bv
+//@ props C06
+//@ requires [C06] fh != nil && fh.RemainLength >= 0
+//@ modifies heap
+//@ preserves all(FixHeader.*)
+//@ ensures [C06] result1 == nil ==> result0 != nil && fh.Flags == 0 && result0.FixHeader == fh && result0.Version == version && len(result0.Payload) >= 1
+//@ ensures [C06] fh.Flags != 0 ==> result1 != nil
+
+//@ func (*Unsuback).Pack mode bv
+//@ props C06
+//@ requires [C06] p != nil && w != nil
+//@ modifies p.FixHeader, heap, ghost(w.$in)
+//@ abstract call Buffer).WriteTo pure
+//@ call writeUint16#1 assert [C06] i == p.PacketID && $arg0.$w == 0 && $arg0.$r == 0
+//@ call Buffer.Write#1 assert [C06] $arg1 == p.Payload && (p.Version != 5 ==> bufw.$w == 2)
+//@ call FixHeader.Pack#1 assert [C06] p.FixHeader.PacketType == 11 && p.FixHeader.Flags == 0 && p.FixHeader.RemainLength == bufw.$w - bufw.$r && bufw.$r == 0 && bufw.$data[0] == byte(p.PacketID >> 8) && bufw.$data[1] == byte(p.PacketID)
+//@ call FixHeader.Pack#1 assert [C06] bufw.$w >= 2 + len(p.Payload) && (forall k int :: 0 <= k && k < len(p.Payload) ==> bufw.$data[bufw.$w - len(p.Payload) + k] == p.Payload[k])
+
+//@ func (*Unsuback).Unpack mode bv
+//@ props C06
+//@ requires [C06] p != nil && p.FixHeader != nil && p.FixHeader.RemainLength >= 0
+//@ modifies heap
+//@ preserves all(FixHeader.*), all(Unsuback.Version), all(Unsuback.FixHeader)
+//@ loop 1 invariant bufOK(bufr) && bufr.$w == p.FixHeader.RemainLength && p.FixHeader.RemainLength >= 2 && bufr.$r >= 2 && p.PacketID == (uint16(bufr.$data[0]) << 8 | uint16(bufr.$data[1]))
+//@ ensures [C06] result == nil ==> p.FixHeader.RemainLength >= 2 && p.PacketID == (uint16(bufr.$data[0]) << 8 | uint16(bufr.$data[1])) && bufr.$w == p.FixHeader.RemainLength
+//@ ensures [C06] result == nil && p.Version == 5 ==> len(p.Payload) >= 1 && bufr.$r == bufr.$w
+//@ call Buffer.Len#1 assert [C06] len(p.Payload) >= 1 && p.Payload[len(p.Payload) - 1] == b && b == bufr.$data[bufr.$r - 1]
+
+//@ func NewUnsubackPacket mode bv
+//@ props C06
+//@ requires [C06] fh != nil && fh.RemainLength >= 0
+//@ modifies heap
+//@ preserves all(FixHeader.*)
+//@ ensures [C06] result1 == nil ==> result0 != nil && fh.Flags == 0 && result0.FixHeader == fh && result0.Version == version
+//@ ensures [C06] fh.Flags != 0 ==> result1 != nil
+//@ ensures [C06] (result0 == nil) == (result1 != nil)
+
+// ---------------------------------------------------------------------------
+// C06 — CONNACK: the acknowledge flags (bit 0 = Session Present, the others reserved), the reason code, (v5) properties.
+//@ func (*Connack).Pack mode bv
+//@ props C06
+//@ requires [C06] c != nil && w != nil
+//@ modifies c.FixHeader, heap, ghost(w.$in)
+//@ abstract call Buffer).WriteTo pure
+//@ call Buffer.WriteByte#3 assert [C06] $arg1 == c.Code && bufw.$w == 1 && bufw.$r == 0 && bufw.$data[0] == (c.SessionPresent ? 1 : 0)
+//@ call FixHeader.Pack#1 assert [C06] c.FixHeader.PacketType == 2 && c.FixHeader.Flags == 0 && c.FixHeader.RemainLength == bufw.$w - bufw.$r && bufw.$r == 0 && bufw.$data[0] == (c.SessionPresent ? 1 : 0) && bufw.$data[1] == c.Code
+//@ call FixHeader.Pack#1 assert [C06] c.Version != 5 ==> c.FixHeader.RemainLength == 2
+
+//@ func (*Connack).Unpack mode bv
+//@ props C06
+//@ requires [C06] c != nil && c.FixHeader != nil && c.FixHeader.RemainLength >= 0
+//@ modifies heap
+//@ preserves all(FixHeader.*), all(Connack.Version), all(Connack.FixHeader)
+//@ ensures [C06] result == nil ==> c.FixHeader.RemainLength >= 2 && bufr.$w == c.FixHeader.RemainLength && (bufr.$data[0] == 0 || bufr.$data[0] == 1) && c.SessionPresent == (bufr.$data[0] == 1) && c.Code == bufr.$data[1]
+//@ ensures [C06] result == nil && c.Version != 5 ==> bufr.$r == 2
+
+//@ func NewConnackPacket mode bv
+//@ props C06
+//@ requires [C06] fh != nil && fh.RemainLength >= 0
+//@ modifies heap
+//@ preserves all(FixHeader.*)
+//@ ensures [C06] result1 == nil ==> result0 != nil && fh.Flags == 0 && result0.FixHeader == fh && result0.Version == version
+//@ ensures [C06] fh.Flags != 0 ==> result1 != nil
+//@ ensures [C06] (result0 == nil) == (result1 != nil)
+
+// ---------------------------------------------------------------------------
+// C06 — DISCONNECT / AUTH: nothing for v3; for v5 the reason code and the property block, both left out when the
+// reason is Success and there are no properties. PINGREQ / PINGRESP: an empty remaining length.
+//@ func (*Disconnect).Pack mode bv
+//@ props C06
+//@ requires [C06] d != nil && w != nil
+//@ modifies d.FixHeader, heap, ghost(w.$in)
+//@ abstract call Buffer).WriteTo pure
+//@ call FixHeader.Pack#1 assert [C06] (d.Version == 3 || d.Version == 4) && d.FixHeader.PacketType == 14 && d.FixHeader.Flags == 0 && d.FixHeader.RemainLength == 0
+//@ call Buffer.WriteByte#1 assert [C06] $arg1 == d.Code && (d.Code != 0 || d.Properties != nil) && bufw.$w == 0 && bufw.$r == 0
+//@ call FixHeader.Pack#2 assert [C06] !(d.Version == 3 || d.Version == 4) && d.FixHeader.PacketType == 14 && d.FixHeader.Flags == 0 && d.FixHeader.RemainLength == bufw.$w - bufw.$r && bufw.$r == 0
+//@ call FixHeader.Pack#2 assert [C06] (d.Code == 0 && d.Properties == nil ==> d.FixHeader.RemainLength == 0) && (d.Code != 0 || d.Properties != nil ==> d.FixHeader.RemainLength >= 1 && bufw.$data[0] == d.Code)
+
+//@ func (*Disconnect).Unpack mode bv
+//@ props C06
+//@ requires [C06] d != nil && d.FixHeader != nil && d.FixHeader.RemainLength >= 0
+//@ modifies heap
+//@ preserves all(FixHeader.*), all(Disconnect.Version), all(Disconnect.FixHeader)
+//@ ensures [C06] result == nil && d.Version == 5 ==> d.Properties != nil && (d.FixHeader.RemainLength == 0 ==> d.Code == 0)
+//@ ensures [C06] result == nil && d.Version == 5 && d.FixHeader.RemainLength > 0 ==> d.Code == bufr.$data[0] && bufr.$w == d.FixHeader.RemainLength
+
+//@ func NewDisConnectPackets mode bv
+//@ props C06
+//@ requires [C06] fh != nil && fh.RemainLength >= 0
+//@ modifies heap
+//@ preserves all(FixHeader.*)
+//@ ensures [C06] result1 == nil ==> result0 != nil && fh.Flags == 0 && result0.FixHeader == fh && result0.Version == version && (version == 5 ==> result0.Properties != nil)
+//@ ensures [C06] fh.Flags != 0 ==> result1 != nil
+//@ ensures [C06] (result0 == nil) == (result1 != nil)
+
+//@ func (*Auth).Pack mode bv
+//@ props C06
+//@ requires [C06] a != nil && w != nil
+//@ modifies a.FixHeader, heap, ghost(w.$in)
+//@ abstract call Buffer).WriteTo pure
+//@ call Buffer.WriteByte#1 assert [C06] $arg1 == a.Code && (a.Code != 0 || a.Properties != nil) && bufw.$w == 0 && bufw.$r == 0
+//@ call FixHeader.Pack#1 assert [C06] a.FixHeader.PacketType == 15 && a.FixHeader.Flags == 0 && a.FixHeader.RemainLength == bufw.$w - bufw.$r && bufw.$r == 0
+//@ call FixHeader.Pack#1 assert [C06] (a.Code == 0 && a.Properties == nil ==> a.FixHeader.RemainLength == 0) && (a.Code != 0 || a.Properties != nil ==> a.FixHeader.RemainLength >= 1 && bufw.$data[0] == a.Code)
+
+//@ func (*Auth).Unpack mode bv
+//@ props C06
+//@ requires [C06] a != nil && a.FixHeader != nil && a.FixHeader.RemainLength >= 0
+//@ modifies heap
+//@ preserves all(FixHeader.*), all(Auth.FixHeader)
+//@ ensures [C06] result == nil && a.FixHeader.RemainLength == 0 ==> a.Code == 0
+//@ ensures [C06] result == nil && a.FixHeader.RemainLength > 0 ==> a.Properties != nil && a.Code == bufr.$data[0] && bufr.$w == a.FixHeader.RemainLength
+
+//@ func NewAuthPacket mode bv
+//@ props C06
+//@ requires [C06] fh != nil && fh.RemainLength >= 0
+//@ modifies heap
+//@ preserves all(FixHeader.*)
+//@ ensures [C06] result1 == nil ==> result0 != nil && fh.Flags == 0 && result0.FixHeader == fh
+//@ ensures [C06] fh.Flags != 0 ==> result1 != nil
+//@ ensures [C06] (result0 == nil) == (result1 != nil)
+
+//@ func (*Pingreq).Pack mode bv
+//@ props C06
+//@ requires [C06] p != nil && w != nil
+//@ modifies p.FixHeader, heap, ghost(w.$in)
+//@ call FixHeader.Pack#1 assert [C06] p.FixHeader.PacketType == 12 && p.FixHeader.Flags == 0 && p.FixHeader.RemainLength == 0
+//@ func (*Pingresp).Pack mode bv
+//@ props C06
+//@ requires [C06] p != nil && w != nil
+//@ modifies p.FixHeader, heap, ghost(w.$in)
+//@ call FixHeader.Pack#1 assert [C06] p.FixHeader.PacketType == 13 && p.FixHeader.Flags == 0 && p.FixHeader.RemainLength == 0
+//@ func (*Pingreq).Unpack
+//@ props C06
+//@ requires [C06] p != nil && p.FixHeader != nil
+//@ ensures [C06] (result == nil) == (p.FixHeader.RemainLength == 0)
+//@ func (*Pingresp).Unpack
+//@ props C06
+//@ requires [C06] p != nil && p.FixHeader != nil
+//@ ensures [C06] (result == nil) == (p.FixHeader.RemainLength == 0)
+//@ func NewPingreqPacket
+//@ props C06
+//@ requires [C06] fh != nil
+//@ modifies heap
+//@ preserves all(FixHeader.*)
+//@ ensures [C06] (result1 == nil) == (fh.Flags == 0 && fh.RemainLength == 0) && (result0 == nil) == (result1 != nil) && (result0 != nil ==> result0.FixHeader == fh)
+//@ func NewPingrespPacket
+//@ props C06
+//@ requires [C06] fh != nil
+//@ modifies heap
+//@ preserves all(FixHeader.*)
+//@ ensures [C06] (result1 == nil) == (fh.Flags == 0 && fh.RemainLength == 0) && (result0 == nil) == (result1 != nil) && (result0 != nil ==> result0.FixHeader == fh)
+
+// ---------------------------------------------------------------------------
+// C06 — CONNECT: the connect-flags byte (MQTT 3.1.2.3) and the payload fields it announces.
+//@ spec func connFlags(user bool, pass bool, wretain bool, wqos byte, wflag bool, clean bool) byte = (byte(0) | (wqos == 1 ? 8 : (wqos == 2 ? 16 : 0)) | (user ? 128 : 0) | (pass ? 64 : 0) | (wretain ? 32 : 0) | (wflag ? 4 : 0) | (clean ? 2 : 0))
+//@ lemma connFlagsRoundTrip mode bv : [C06] forall u bool, p bool, wr bool, wq byte, wf bool, cs bool :: wq <= 2 ==> (1 & connFlags(u, p, wr, wq, wf, cs)) == 0 && ((1 & (connFlags(u, p, wr, wq, wf, cs) >> 1)) > 0) == cs && ((1 & (connFlags(u, p, wr, wq, wf, cs) >> 2)) > 0) == wf && (3 & (connFlags(u, p, wr, wq, wf, cs) >> 3)) == wq && ((1 & (connFlags(u, p, wr, wq, wf, cs) >> 5)) > 0) == wr && ((1 & (connFlags(u, p, wr, wq, wf, cs) >> 6)) > 0) == p && ((1 & (connFlags(u, p, wr, wq, wf, cs) >> 7)) > 0) == u
+
+//@ func EncodeUTF8String mode bv
+//@ props C06
+//@ ensures [C06] len(buf) > 65535 ==> err != nil && b == nil
+//@ ensures [C06] len(buf) <= 65535 ==> err == nil && size == 2 + len(buf) && len(b) == 2 + len(buf) && b[0] == byte(uint16(len(buf)) >> 8) && b[1] == byte(uint16(len(buf))) && (forall k int :: 0 <= k && k < len(buf) ==> b[2 + k] == buf[k])
+
+//@ func (encoding/binary.bigEndian).PutUint16 mode bv
+//@ params self, b, v
+//@ requires len(b) >= 2
+//@ modifies elems(b)
+//@ ensures b[0] == byte(v >> 8) && b[1] == byte(v) && (forall k int :: k >= 2 && k < len(b) ==> b[k] == old(b[k]))
+
+//@ func (*Connect).Unpack mode bv
+//@ props C06
+//@ requires [C06] c != nil && c.FixHeader != nil && c.FixHeader.RemainLength >= 0
+//@ modifies heap
+//@ preserves all(FixHeader.*), all(Connect.FixHeader)
+//@ abstract call bytes.Equal pure
+//@ call readUint16#1 assert [C06] (connectFlags & 1) == 0 && connectFlags == bufr.$data[bufr.$r - 1] && c.CleanStart == ((1 & (connectFlags >> 1)) > 0) && c.WillFlag == ((1 & (connectFlags >> 2)) > 0) && c.WillQos == (3 & (connectFlags >> 3)) && c.WillRetain == ((1 & (connectFlags >> 5)) > 0) && c.PasswordFlag == ((1 & (connectFlags >> 6)) > 0) && c.UsernameFlag == ((1 & (connectFlags >> 7)) > 0)
+//@ call readUint16#1 assert [C06] (c.WillFlag || (c.WillQos == 0 && !c.WillRetain)) && c.Version == c.ProtocolLevel && c.ProtocolLevel == bufr.$data[bufr.$r - 2] && bufr.$r == 4 + len(c.ProtocolName)
+//@ call Connect.unpackPayload#1 assert [C06] (c.Version == 5 ==> c.Properties != nil && c.WillProperties != nil) && $arg1 == bufr && bufOK(bufr)
+//@ ensures [C06] err == nil ==> c.Version == c.ProtocolLevel && (c.WillFlag || (c.WillQos == 0 && !c.WillRetain)) && (c.Version == 5 ==> c.Properties != nil && c.WillProperties != nil)
+//@ ensures [C06] err == nil && (c.Version == 3 || c.Version == 4) && len(c.ClientID) == 0 ==> c.CleanStart
+
+// Properties.UnpackWillProperties consumes the will property block from the buffer and fills the receiver (trusted here).
+//@ func (*Properties).UnpackWillProperties trusted
+//@ modifies p.*, ghost(bufr.$r)
+//@ ensures bufOK(bufr) && bufr.$r >= old(bufr.$r)
+//@ func (*Properties).PackWillProperties trusted
+//@ modifies ghost(bufw.$data), ghost(bufw.$w)
+//@ ensures bufOK(bufw) && bufw.$w >= old(bufw.$w) && (forall i int :: i < old(bufw.$w) ==> bufw.$data[i] == old(bufw.$data[i]))
+
+//@ func (*Connect).unpackPayload mode bv
+//@ props C06
+//@ requires [C06] c != nil && bufOK(bufr) && (c.Version == 5 && c.WillFlag ==> c.WillProperties != nil)
+//@ modifies heap, ghost(bufr.$r)
+//@ preserves all(FixHeader.*), all(Connect.FixHeader), all(Connect.Version), all(Connect.ProtocolLevel), all(Connect.CleanStart), all(Connect.WillFlag), all(Connect.WillQos), all(Connect.WillRetain), all(Connect.UsernameFlag), all(Connect.PasswordFlag), all(Connect.Properties), all(Connect.WillProperties), all(Connect.KeepAlive)
+//@ ensures [C06] bufOK(bufr) && bufr.$r >= old(bufr.$r) && bufr.$w == old(bufr.$w)
+//@ ensures [C06] result == nil ==> len(c.ClientID) == int(uint16(bufr.$data[old(bufr.$r)]) << 8 | uint16(bufr.$data[old(bufr.$r) + 1])) && (forall k int :: 0 <= k && k < len(c.ClientID) ==> c.ClientID[k] == bufr.$data[old(bufr.$r) + 2 + k])
+//@ ensures [C06] result == nil && (c.Version == 3 || c.Version == 4) && len(c.ClientID) == 0 ==> c.CleanStart
+//@ ensures [C06] result == nil && !c.WillFlag && !c.UsernameFlag && !c.PasswordFlag ==> bufr.$r == old(bufr.$r) + 2 + len(c.ClientID)
+//@ ensures [C06] result == nil && c.Version != 5 && c.WillFlag && !c.UsernameFlag && !c.PasswordFlag ==> bufr.$r == old(bufr.$r) + 6 + len(c.ClientID) + len(c.WillTopic) + len(c.WillMsg)
+
+//@ func NewConnectPacket mode bv
+//@ props C06
+//@ requires [C06] fh != nil && fh.RemainLength >= 0
+//@ modifies heap
+//@ preserves all(FixHeader.*)
+//@ ensures [C06] result1 == nil ==> result0 != nil && fh.Flags == 0 && result0.FixHeader == fh && result0.Version == result0.ProtocolLevel
+//@ ensures [C06] fh.Flags != 0 ==> result1 != nil
+//@ ensures [C06] (result0 == nil) == (result1 != nil)
+
+//@ func (*Connect).Pack mode bv
+//@ props C06
+//@ requires [C06] c != nil && w != nil
+//@ modifies c.FixHeader, heap, ghost(w.$in)
+//@ abstract call Buffer).WriteTo pure
+// the protocol name goes out as a length-prefixed string: its two length bytes say how long it is
+//@ call Buffer.WriteByte#1 assert [C06] $arg1 == c.ProtocolLevel && bufw.$r == 0 && bufw.$w == 2 + len(c.ProtocolName) && bufw.$data[0] == byte(uint16(len(c.ProtocolName)) >> 8) && bufw.$data[1] == byte(uint16(len(c.ProtocolName))) && (forall k int :: 0 <= k && k < len(c.ProtocolName) ==> bufw.$data[2 + k] == c.ProtocolName[k])
+//@ call Buffer.Write#1 assert [C06] len(p) == 1 && p[0] == connFlags(c.UsernameFlag, c.PasswordFlag, c.WillRetain, c.WillQos, c.WillFlag, c.CleanStart) && bufw.$w == 3 + len(c.ProtocolName)
+//@ call writeUint16#1 assert [C06] i == c.KeepAlive && $arg0.$w == 4 + len(c.ProtocolName)
+//@ call Buffer.Write#2 assert [C06] len(p) == 2 + len(c.ClientID) && (forall k int :: 0 <= k && k < len(c.ClientID) ==> p[2 + k] == c.ClientID[k]) && (c.Version != 5 ==> bufw.$w == 6 + len(c.ProtocolName))
+//@ call Buffer.Write#3 assert [C06] c.WillFlag && len(p) == 2 + len(c.WillTopic) && (forall k int :: 0 <= k && k < len(c.WillTopic) ==> p[2 + k] == c.WillTopic[k])
+//@ call Buffer.Write#4 assert [C06] c.WillFlag && len(p) == 2 + len(c.WillMsg) && (forall k int :: 0 <= k && k < len(c.WillMsg) ==> p[2 + k] == c.WillMsg[k])
+//@ call Buffer.Write#5 assert [C06] c.UsernameFlag && len(p) == 2 + len(c.Username) && (forall k int :: 0 <= k && k < len(c.Username) ==> p[2 + k] == c.Username[k])
+//@ call Buffer.Write#6 assert [C06] c.PasswordFlag && len(p) == 2 + len(c.Password) && (forall k int :: 0 <= k && k < len(c.Password) ==> p[2 + k] == c.Password[k])
+//@ call FixHeader.Pack#1 assert [C06] c.FixHeader.PacketType == 1 && c.FixHeader.Flags == 0 && c.FixHeader.RemainLength == bufw.$w - bufw.$r && bufw.$r == 0
